@@ -6,7 +6,7 @@ package curves
 
 //@ iface (c SpeedCurve).Evaluate() (value int, err error)
 //@   ensures[C06.range C07] err == nil ==> 0 <= value && value <= 255
-//@   modifies each(*LinearSpeedCurve).Value, each(*FunctionSpeedCurve).Value, each(*PidSpeedCurve).Value, each(*util.PidLoop).integral, each(*util.PidLoop).error, each(*util.PidLoop).lastTime, procWorld, started, lastReadFailed
+//@   modifies each(*LinearSpeedCurve).Value, each(*FunctionSpeedCurve).Value, each(*PidSpeedCurve).Value, lastAvgRead, lastValue, lastInterp, segLo, segHi, each(*util.PidLoop).integral, each(*util.PidLoop).error, each(*util.PidLoop).lastTime, procWorld, started, lastReadFailed
 
 // ---- registry ---------------------------------------------------------------------------------------
 //@ ghost var curveReg gset[string]
@@ -27,6 +27,8 @@ package curves
 //@   modifies c.Value
 
 
+//@ pure linRamp(avg float64, minT float64, maxT float64) int = avg >= maxT ? 255 : (avg <= minT ? 0 : int(((avg - minT) / (maxT - minT)) * 255.0))
+
 //@ func (*LinearSpeedCurve).Evaluate
 //@   props C06
 //@   requires c.Config.Linear != nil && c.Config.Linear.Sensor in sensorReg && c.Config.Linear.Sensor in sensorFinite
@@ -34,4 +36,6 @@ package curves
 //@   requires c.Config.Linear.Steps == nil ==> c.Config.Linear.Min < c.Config.Linear.Max && -1000000 <= c.Config.Linear.Min && c.Config.Linear.Max <= 1000000
 //@   ensures[C06.range] err == nil && 0 <= value && value <= 255
 //@   ensures[C06.current] c.Value == value
-//@   modifies c.Value
+//@   ensures[C06.minmax]  c.Config.Linear.Steps == nil ==> value == linRamp(lastAvgRead, float64(c.Config.Linear.Min) * 1000.0, float64(c.Config.Linear.Max) * 1000.0)
+//@   ensures[C06.steps]   c.Config.Linear.Steps != nil ==> value == int(round(lastInterp))
+//@   modifies c.Value, lastAvgRead, lastInterp, segLo, segHi
